@@ -80,6 +80,11 @@ package packet
 //@ 	_, ok := v.(types.ASPath)
 //@ 	return ok
 //@ }
+//@ // the AS path under construction lives in an array of its own (appending to it writes no other object)
+//@ func spec_ownASPath(v interface{}) bool {
+//@ 	a, ok := v.(types.ASPath)
+//@ 	return ok && verif_freshslice(a)
+//@ }
 //@ end
 
 //@ contract decodeHeader
@@ -141,6 +146,7 @@ package packet
 //@   ensures[C19] result == nil && len0 <= 4096 ==> len0 - buf.Len() == int(pa.Length)
 //@   loop 0 vars p uint16
 //@   loop 0 invariant spec_isASPath(pa.Value)
+//@   loop 0 invariant spec_ownASPath(pa.Value)
 //@   loop 0 invariant len0 <= 4096 ==> int(p) == len0 - buf.Len()
 //@   loop 1 vars p uint16
 //@   loop 1 invariant len0 <= 4096 ==> int(p) == len0 - buf.Len()
@@ -243,6 +249,8 @@ package packet
 //@   ensures result2 == nil ==> result0 != nil && verif_fresh(result0)
 //@   ensures result2 == nil && safi != SAFILabeledUnicast ==> int(result1) == len0 - buf.Len() && result1 >= 1
 //@   ensures result2 == nil ==> result0.Prefix != nil
+//@   loop 0 vars nlri *NLRI
+//@   loop 0 invariant verif_fresh(nlri) && verif_freshslice(nlri.LabelStack)
 
 //@ contract decodeNLRIs
 //@   props C16 C19
